@@ -14,6 +14,8 @@ fn main() {
             "mix" => gens::gen_mix(r),
             "c09" => gens::gen_c09(r),
             "c14" => gens::gen_c14(r),
+            "c11" => gens::gen_c11(r),
+            "c06" => gens::gen_c06(r),
             "c10" => gens::gen_c10(r, false),
             "c10long" => gens::gen_c10(r, true),
             other => panic!("unknown generator {other}"),
